@@ -972,6 +972,18 @@ def run_C15(ctx):
             progs["shadow"] = "let v = zz.zz\nrule r {\nlet v = %s\n%s\n}\n" % (q, clause("%v"))
             progs["when-let"] = "rule r {\nwhen this exists {\nlet v = %s\n%s\n}\n}\n" % (q, clause("%v"))
             progs["param"] = "rule f(p) {\n%s\n}\nrule r {\nf(%s)\n}\n" % (clause("%p"), q)
+        if not skip_empty_exception:
+            # a `when` condition lies OUTSIDE the block it guards: a `let` of the same name inside the block does not reach it
+            progs["cond-inline"] = "rule r {\nwhen %s {\nthis exists\n}\n}\n" % clause(q)
+            progs["cond-file-let"] = "let v = %s\nrule r {\nwhen %s {\nlet v = zz.zz\nthis exists\n}\n}\n" % (q, clause("%v"))
+            progs["cond-rule-let"] = "rule r {\nlet v = %s\nwhen %s {\nlet v = zz.zz\nthis exists\n}\n}\n" % (q, clause("%v"))
+            progs["cond-nested"] = "rule r {\nwhen this exists {\nlet v = %s\nwhen %s {\nlet v = zz.zz\nthis exists\n}\n}\n}\n" % (q, clause("%v"))
+            # an index right after the variable indexes each value the variable holds, like the query in place
+            for n_ in (0, 1):
+                progs["index%d-inline" % n_] = "rule r {\n%s\n}\n" % clause("%s[%d]" % (q, n_))
+                progs["index%d-let" % n_] = "let v = %s\nrule r {\n%s\n}\n" % (q, clause("%%v[%d]" % n_))
+                progs["index%d-rule-let" % n_] = "rule r {\nlet v = %s\n%s\n}\n" % (q, clause("%%v[%d]" % n_))
+                progs["index%d-param" % n_] = "rule f(p) {\n%s\n}\nrule r {\nf(%s)\n}\n" % (clause("%%p[%d]" % n_), q)
         if skip_empty_exception and not q.endswith("]"):
             # the documented exception is the BARE variable only. The `[*]` after a variable head is the one the parser
             # inserts anyway (`%v.a` is `%v[*].a`) and retrieval skips it, so `%v[*] empty` is the clause `q empty` in place
@@ -1044,8 +1056,20 @@ def run_C15(ctx):
                     res.judge_failures.append({"what": "`%%v[*] %s` is %s but `%s %s` in place is %s (only the bare variable tests the result set)" % (op, st(k), q, op, st("star-inline")),
                                                "class": "c15-" + k, "rules": results[idx[k]]["case"]["rules"],
                                                "base_rules": results[idx["star-inline"]]["case"]["rules"], "data": results[idx[k]]["case"]["data"]})
+        for ref_, ks_ in (("cond-inline", ("cond-file-let", "cond-rule-let", "cond-nested")),
+                          ("index0-inline", ("index0-let", "index0-rule-let", "index0-param")),
+                          ("index1-inline", ("index1-let", "index1-rule-let", "index1-param"))):
+            if ref_ not in idx or str(st(ref_)).startswith("ERR"):
+                continue
+            for k in ks_:
+                res.stats["c15-site:" + k] += 1
+                res.stats["c15-site:%s:%s" % (ref_, st(ref_))] += 1
+                if st(k) != st(ref_):
+                    res.judge_failures.append({"what": "abstraction `%s` changes the verdict: in place %s, with the variable %s" % (k, st(ref_), st(k)),
+                                               "class": "c15-" + k, "rules": results[idx[k]]["case"]["rules"],
+                                               "base_rules": results[idx[ref_]]["case"]["rules"], "data": results[idx[k]]["case"]["data"]})
         for k in idx:
-            if k in ("inline", "block-inline", "block-let") or k.startswith(("some-ref", "all-ref", "star-")):
+            if k in ("inline", "block-inline", "block-let") or k.startswith(("some-ref", "all-ref", "star-", "cond-", "index")):
                 continue
             res.stats["c15-site:" + k] += 1
             if st(k) != base:
@@ -3478,6 +3502,25 @@ def run_C14(ctx):
                 vs.append(("quotes", len(cases)))
                 cases.append({"rules": v, "data": json.dumps(d)})
         groups.append((bi, vs))
+    # directed: indices outside the i32 range written `.n` and `[n]`; a filter whose first clause begins with a quoted
+    # property name, with and without blanks / line breaks after `[`
+    BIG = [4294967297, 2147483648, 4294967296, 2147483647, 8589934593, 9223372036854775807, 4294967295]
+    for i in range(len(BIG)):
+        nidx = BIG[i]
+        d = {"a": [10, 20, 30], "Items": [{"aws:stage": "prod", "n": 1}, {"aws:stage": "dev", "n": 2}, {"k": "v", "n": 3}]}
+        base = "rule big {\na.%d == 20\nsome a.%d exists\na.%d !exists\n}\n" % (nidx, nidx, nidx)
+        bi = len(cases)
+        cases.append({"rules": base, "data": json.dumps(d)})
+        cases.append({"rules": base.replace("a.%d" % nidx, "a[%d]" % nidx), "data": json.dumps(d)})
+        groups.append((bi, [("index-form", bi + 1)]))
+        key, val = [("aws:stage", "prod"), ("k", "v"), ("aws:stage", "dev")][i % 3]
+        fb = "rule flt {\nItems[ '%s' == '%s' ].n >= %d\nItems[ '%s' == '%s' ] !empty\n}\n" % (key, val, i % 3, key, val)
+        bi = len(cases)
+        cases.append({"rules": fb, "data": json.dumps(d)})
+        cases.append({"rules": fb.replace("[ '", "['").replace("' ]", "']"), "data": json.dumps(d)})
+        cases.append({"rules": fb.replace("[ '%s'" % key, '["%s"' % key), "data": json.dumps(d)})
+        cases.append({"rules": fb.replace("[ '", "[\n    '"), "data": json.dumps(d)})
+        groups.append((bi, [("layout", bi + 1), ("quotes", bi + 2), ("layout", bi + 3)]))
     # desugarings with a structured generator
     for i in range(n // 3):
         g = gen.SG(ctx.seed * 3100019 + i, core=True)
